@@ -111,9 +111,9 @@ func newWindowByTime(
 		nextEmit = t.Add(period)
 		if align {
 			firstPeriod := nextEmit
-			// Needs to be aligned with Every and be greater than now+Period
+			// Needs to be aligned with Every and not be before now+Period
 			nextEmit = nextEmit.Truncate(every)
-			if !nextEmit.After(firstPeriod) {
+			if nextEmit.Before(firstPeriod) {
 				// This means we will drop the first few points
 				nextEmit = nextEmit.Add(every)
 			}
